@@ -22,10 +22,10 @@ a message (`what`, `hard_limit`) are parameters of the generated function and ab
 `skipLinesLoop` end differently when the fuel `rest.length + 1` runs out: it never does, since every
 iteration that continues has consumed at least one byte.
 
-Not translated (listed with reasons in `tools/unit_cnftoken.py`): `clause_lits` (out-parameter
-`lits: &mut Vec<L>` mutated by a closure that contains the loop: the emitter has no closures that assign
-captured variables), `unexpected`, `exceeds_var_count` (message formatting; calls of them are the models
-`Cnf.unexpected` / `Cnf.exceedsVarCount`) — these stay tied by correspondence runs.
+Not translated (listed with reasons in `tools/unit_cnftoken.py`): `unexpected`, `exceeds_var_count` (message
+formatting; calls of them are the models `Cnf.unexpected` / `Cnf.exceedsVarCount`) — these stay tied by
+correspondence runs.  `clause_lits` is translated after a documented normalisation of its out-parameter
+(`normalise_clause_lits`).
 -/
 import Flussab.Proof.TieCnfToken
 
